@@ -52,8 +52,9 @@ type caseSpec struct {
 	Comp    bool      `json:"comp"`
 	Level   int       `json:"level"`
 	Msgs    []msgSpec `json:"msgs"`
-	Ctl     string    `json:"ctl,omitempty"`    // "", "ping", "pong": written between consecutive messages
-	Splice  bool      `json:"splice,omitempty"` // move each control frame behind the first fragment of the following message
+	Ctl     string    `json:"ctl,omitempty"`     // "", "ping", "pong": written between consecutive messages
+	CtlLen  int       `json:"ctl_len,omitempty"` // control payload length (default: a 2-byte tag)
+	Splice  bool      `json:"splice,omitempty"`  // move each control frame behind the first fragment of the following message
 	RecvDF  bool      `json:"recv_dataframe,omitempty"`
 	CloseAH bool      `json:"close_after_handler,omitempty"`
 	Policy  int       `json:"policy,omitempty"`
@@ -406,8 +407,14 @@ func segPolicy(tier string, c *caseSpec, b *built, seqPart bool) (wsgen.SegOpt, 
 	if n > 4096 {
 		o.Chunks = []int{4093}
 	}
+	if !thorough && b.nFrames > 24 {
+		// many tiny frames (F <= 2): cuts inside the 20th frame repeat those inside the 2nd; the quick
+		// tier takes the structural cuts of the first and last 3 frames plus byte-at-a-time
+		o.AllSingleMax = 0
+		o.StructFrames = 3
+	}
 	// double cuts
-	if seqPart || thorough {
+	if thorough || (seqPart && !c.Comp) {
 		o.AllDoubleMax = 48
 		o.StructDouble = true
 	} else if fullComp && c.Msgs[0].Class == "ramp" {
@@ -418,6 +425,14 @@ func segPolicy(tier string, c *caseSpec, b *built, seqPart bool) (wsgen.SegOpt, 
 }
 
 func runItem(tier string, c *caseSpec, p *vkit.Part, seqPart bool) {
+	t0 := time.Now()
+	defer func() {
+		k := "us_partA_F" + fmt.Sprint(c.F)
+		if seqPart {
+			k = "us_partBCD"
+		}
+		p.Count(k, int(time.Since(t0).Microseconds()))
+	}()
 	b := build(c)
 	if b.encSig != "" {
 		sig, desc := split(b.encSig)
@@ -612,8 +627,8 @@ func run(tier string, sh *vkit.Shard, p *vkit.Part) {
 							continue
 						}
 						for _, splice := range []bool{false, true} {
-							if splice && ctl == "" {
-								continue
+							if splice && (ctl == "" || (ctl == "pong" && !thorough)) {
+								continue // quick: the spliced variant with ping only
 							}
 							item(&caseSpec{C2S: c2s, F: F, Comp: cs.on, Level: cs.level, Msgs: ms, Ctl: ctl, Splice: splice}, true)
 						}
@@ -685,7 +700,7 @@ func main() {
 			"the receiver uses an inline executor; CloseAndClean is performed by the harness after a Parse error or once the implementation closed the conn, as the engine does",
 			"MessageLengthLimit = 0 (limits are C15); the reference decoder (verif/seqx/wsgen: ParseFrames, Judge, Inflate) is independent of nbio and trusted, as are compress/flate and unicode/utf8 of the standard library",
 			"control frames spliced inside a fragmented message are produced by reordering the sender's own frame writes (a legal peer behaviour that nbio's WriteMessage itself never produces)",
-			"quick tier: the full single-cut enumeration is applied to compression settings {off,-2,1,9}; other levels get structural cuts; messages that need more than 4096 frames (64 KiB with F<=2) are reduced to content classes ramp/lowcomp and compression {off,0,1} and fed in chunks (one-piece feed only for uncompressed ramp); thorough lifts this",
+			"quick tier: the full single-cut enumeration is applied to compression settings {off,-2,1,9} and wires of at most 24 frames; other levels / wires of more frames get structural cuts (first and last 3 frames); double cuts for uncompressed sequences and ramp content; messages that need more than 4096 frames (64 KiB with F<=2) are reduced to content classes ramp/lowcomp and compression {off,0,1} and fed in chunks (one-piece feed only for uncompressed ramp); thorough lifts this",
 		},
 		Seq: run, ReplaySeq: replay, MinNonTrivial: 1000,
 	})
